@@ -147,10 +147,11 @@ func init() {
 			"one ONCE call site per query; no LIMIT; function errors under ASYNC belong to C10/C19; SPIN completion before return is not required (only 'adds no column')",
 			"ASYNC calls appear as direct select-list items (the README rules out ASYNC inside FROM clauses)",
 		},
-		Floor:         []string{"q.plain", "q.async", "q.spinasync", "q.spin", "q.once", "q.await-async", "star", "where", "nested", "shape.union", "shape.cte", "shape.multidim", "arg.null", "page", "page.empty", "order.async", "distinct.async", "joinop.derived", "joinop.both", "lat.zero", "lat.yield", "lat.random", "lat.skewed", "lat.straggler", "table.empty", "imm.async", "imm.spin", "imm.spinasync", "imm.harness", "imm.harness-mixedcase"},
+		Floor:         []string{"q.plain", "q.async", "q.spinasync", "q.spin", "q.once", "q.await-async", "star", "where", "nested", "shape.union", "shape.cte", "shape.multidim", "arg.null", "page", "page.empty", "order.async", "distinct.async", "joinop.derived", "joinop.both", "builtin.async", "lat.zero", "lat.yield", "lat.random", "lat.skewed", "lat.straggler", "table.empty", "imm.async", "imm.spin", "imm.spinasync", "imm.harness", "imm.harness-mixedcase"},
 		MinNontrivial: 30,
 		Phases: []fw.Phase{
 			{Name: "ledger", N: func(t fw.Tier) int { return pick(t, 2500, 40000) }, Run: func(c *fw.Case) { c14Ledger(c, false) }},
+			{Name: "builtin", Race: true, N: func(t fw.Tier) int { return pick(t, 40, 600) }, Run: c14Builtin, Batch: 8},
 			{Name: "joinop", N: func(t fw.Tier) int { return pick(t, 300, 6000) }, Run: c14JoinOperand},
 			{Name: "immediate", N: func(t fw.Tier) int { return len(c14Immediates) * 3 }, Run: c14Immediate},
 			{Name: "race", Race: true, N: func(t fw.Tier) int { return pick(t, 300, 5000) }, Run: func(c *fw.Case) { c14Ledger(c, true) }},
@@ -878,4 +879,59 @@ func c14Same(got any, want any) bool {
 		return got == nil
 	}
 	return sameSelValue(got, want)
+}
+
+
+// c14Builtin: ASYNC applied to the library's own (non-immediate) built-in
+// functions over many rows with large payloads, so that the calls overlap; in
+// every row the ASYNC column must equal the unqualified call of the same row.
+// Runs in the -race child.
+func c14Builtin(c *fw.Case) {
+	setHookMode(1)
+	n := 32 + c.Intn(pick(c.Tier, 64, 256))
+	size := 1 << (8 + c.Intn(10)) // 256 B .. 128 KiB
+	rows := make([]any, n)
+	for i := range rows {
+		b := make([]byte, size+c.Intn(64))
+		for k := range b {
+			b[k] = byte('a' + (i*7+k*13+c.Intn(3))%26)
+		}
+		rows[i] = map[string]any{"rid": float64(i), "s": string(b), "n": float64(i) * 1.5}
+	}
+	doc := map[string]any{"big": rows}
+	type pair struct{ call, name string }
+	all := []pair{{"HASH(s, 'sha256')", "h256"}, {"HASH(s, 'sha1')", "h1"}, {"HASH(s, 'md5')", "hmd5"}, {"HASH(s, 'sha512')", "h512"}, {"ENCODE(s, 'hex')", "ehex"}, {"ENCODE(s, 'base64')", "e64"},
+		{"DECODE(ENCODE(s, 'base32'), 'base32')", "rt32"}, {"CONCAT(s, '|', n)", "cc"}, {"CHANGETYPE(n, 'string')", "ct"}, {"ARRAY(n, s)", "ar"}, {"FIRST(ARRAY(s, n))", "fi"}}
+	c.R.Shuffle(len(all), func(i, j int) { all[i], all[j] = all[j], all[i] })
+	pick3 := all[:2+c.Intn(3)]
+	var items []string
+	for _, p := range pick3 {
+		fn := p.call[:strings.Index(p.call, "(")]
+		items = append(items, "ASYNC."+p.call+" AS a_"+p.name, p.call+" AS p_"+p.name)
+		_ = fn
+	}
+	sql := "SELECT rid, " + strings.Join(items, ", ") + " FROM big"
+	c.Feature("builtin.async")
+	o := Run(doc, sql)
+	c.Evals(1)
+	c.Sample(map[string]any{"sql": sql, "rows": n, "payload_bytes": size})
+	det := map[string]any{"sql": sql, "rows": n, "payload_bytes": size, "observed": short(fmt.Sprint(o.Describe()), 600)}
+	if !o.OK() {
+		c.Violate("error", fmt.Sprintf("ASYNC over built-in functions failed: %v", short(fmt.Sprint(o.Describe()), 300)), det)
+		return
+	}
+	if len(o.Rows) != n {
+		c.Violate("value", fmt.Sprintf("%d rows out, %d in", len(o.Rows), n), det)
+		return
+	}
+	for i, r := range o.Rows {
+		m, _ := r.(map[string]any)
+		for _, p := range pick3 {
+			if !val.Equal(val.Deref(m["a_"+p.name]), val.Deref(m["p_"+p.name])) {
+				c.Violate("value", fmt.Sprintf("row %d: ASYNC.%s = %s, the unqualified call gives %s", i, p.call, short(val.Canon(m["a_"+p.name]), 120), short(val.Canon(m["p_"+p.name]), 120)), det)
+				return
+			}
+		}
+	}
+	c.Nontrivial(sql + fmt.Sprint(n, size, c.Idx))
 }
